@@ -15,7 +15,7 @@ from vlib.server import run_coro
 PROP = 'C18'
 MANIFEST = dict(
     text="Bounded symbolic check of the three integrations' request gate and reply construction: integration x base media type {the 3 documented types, near-misses (application/jsons, application/x+json, text/json), unrelated, header missing} "
-         "x parameter suffix x body kind {call ok, call failing, notification, batch, invalid JSON} x status-by-error function (default / by error code, the chosen statuses picked by symbolic bits). "
+         "x parameter suffix x body kind {call ok, call failing, notification, batch, invalid JSON} x status-by-error function (default / by error code, the chosen statuses picked by symbolic bits); several endpoint prefixes on one Flask / aiohttp application (each request must be served by its own endpoint's dispatcher). "
          "For werkzeug the Content-Type is `base + symbolic suffix (len <= 1 quick / <= 2 thorough)`, so the solver looks for ANY such characters that make a wrong media type pass or a right one fail; for Flask and aiohttp a symbolic header cannot cross their request objects "
          "(LocalProxy / C multidict), there the suffix comes from a concrete list. Oracle: media type (part before ';', trimmed, case-insensitive) documented => body == the dispatcher's text, JSON content type, status == status_by_error(codes) (200 default), empty 200 when the dispatcher returns nothing; "
          "otherwise 415 AS A RESPONSE and no method executed.",
@@ -58,6 +58,11 @@ def obligations(tier):
                 if status == 'bycode' and body not in ('ok', 'fail', 'batch'):
                     continue
                 obs.append({'h': 'http', 'integ': integ, 'base': base, 'suffix': suffix, 'body': body, 'status': status})
+    for integ, target, nep in it.product(('flask', 'aiohttp'), (0, 1, 2), (2, 3)):
+        if target >= nep:
+            continue
+        for body in ('ok', 'notif'):
+            obs.append({'h': 'endpoints', 'integ': integ, 'target': target, 'nep': nep, 'body': body})
     n = 1 if tier == 'quick' else 2
     for base, body in it.product(BASES[:-1], ('ok', 'garbage')):
         if tier == 'quick' and (body != 'ok' or base not in ('application/json', 'application/json-rpc', 'application/jsons')):
@@ -185,6 +190,83 @@ def h_http(ob):
         return [status]
 
     return run
+
+
+def h_endpoints(ob):
+    """Several endpoint prefixes on one application: a request to one endpoint is served by THAT endpoint's dispatcher."""
+    PREFIXES = ('', '/v1', '/v2')
+
+    def run(env):
+        integ, nep, target = ob['integ'], ob['nep'], ob['target']
+        log = []
+
+        def mk(tag, is_async):
+            def where(x):
+                log.append(tag)
+                return [tag, x]
+            return _acoro(where) if is_async else where
+
+        body = BODY_TEXT[ob['body']].replace('"echo"', '"where"')
+        path = '/api' + PREFIXES[target]
+        try:
+            if integ == 'flask':
+                import flask
+                from pjrpc.server.integration import flask as fi
+                with env.untraced():
+                    app = flask.Flask('verif')
+                    rpc = fi.JsonRPC('/api')
+                    rpc.dispatcher.add(mk('', False), name='where')
+                    for pfx in PREFIXES[1:nep]:
+                        rpc.add_endpoint(pfx).add(mk(pfx, False), name='where')
+                    rpc.init_app(app)
+                    client = app.test_client()
+                resp = client.post(path, data=body.encode(), headers={'Content-Type': 'application/json'})
+                status, text = resp.status_code, resp.get_data(as_text=True)
+            else:
+                status, text = _aiohttp_routed(env, PREFIXES[:nep], path, body, mk)
+        except Exception as e:
+            raise Violation('raised-out-of-the-integration:' + type(e).__name__, path)
+        env.reached()
+        if status != 200:
+            raise Violation('endpoint-status', (path, status))
+        if log != [PREFIXES[target]]:
+            raise Violation('request-served-by-another-endpoints-dispatcher', (path, log))
+        if ob['body'] == 'notif':
+            if text:
+                raise Violation('notification-reply-not-empty', text)
+            return ['empty']
+        if json.loads(text).get('result') != [PREFIXES[target], 5]:
+            raise Violation('reply-from-another-endpoint', (path, text))
+        return ['served']
+
+    return run
+
+
+def _aiohttp_routed(env, prefixes, path, body, mk):
+    import asyncio
+    from unittest import mock
+    from aiohttp import streams, web
+    from aiohttp.test_utils import make_mocked_request
+    from pjrpc.server.integration import aiohttp as integ
+
+    async def go():
+        app = integ.Application('/api')
+        app.dispatcher.add(mk('', True), name='where')
+        for pfx in prefixes[1:]:
+            app.add_endpoint(pfx).add(mk(pfx, True), name='where')
+        loop = asyncio.get_running_loop()
+        payload = streams.StreamReader(mock.Mock(_reading_paused=False), 2 ** 16, loop=loop)
+        payload.feed_data(body.encode())
+        payload.feed_eof()
+        req = make_mocked_request('POST', path, headers={'Content-Type': 'application/json'}, payload=payload, app=app.app)
+        match = await app.app.router.resolve(req)
+        try:
+            resp = await match.handler(req)
+        except web.HTTPException as e:
+            resp = e
+        return resp.status, (resp.text or '') if hasattr(resp, 'text') else ''
+
+    return run_coro(go())
 
 
 def _werkzeug(env, header, body, echo, fail):
